@@ -6,7 +6,7 @@ d = os.path.abspath(sys.argv[1]); props = sys.argv[2:]
 wt = tempfile.mkdtemp(prefix='wt-verify-', dir='/tmp')
 os.rmdir(wt)
 def sh(cmd, **kw):
-    return subprocess.run(cmd, shell=True, stdout=subprocess.PIPE, stderr=subprocess.STDOUT, text=True, **kw)
+    return subprocess.run(cmd, shell=True, stdout=subprocess.PIPE, stderr=subprocess.STDOUT, text=True, errors='replace', **kw)
 res = {}
 r = sh('git -C /repo worktree add -q --detach %s HEAD' % wt); assert r.returncode == 0, r.stdout
 try:
